@@ -26,6 +26,7 @@ type Profile struct {
 	Rewards     bool
 	BigPeriods  bool
 	MultiTenant bool
+	Isolate     bool // tenants with disjoint admins, NFTs and recipients (C13)
 }
 
 var Profiles = map[string]Profile{
@@ -35,6 +36,7 @@ var Profiles = map[string]Profile{
 	"fault":     {Name: "fault", Steps: 60, Oracle: 2, Settle: 10, Admin: 1, Faults: true, MultiTenant: true},
 	"malformed": {Name: "malformed", Steps: 50, Oracle: 5, Settle: 6, Admin: 1, Malformed: 8, Powers: true},
 	"genesis":   {Name: "genesis", Steps: 40, Oracle: 5, Settle: 8, Admin: 2, Genesis: true, MultiTenant: true},
+	"isolate":   {Name: "isolate", Steps: 70, Oracle: 4, Settle: 12, Admin: 3, MultiTenant: true, Isolate: true},
 	"mixed":     {Name: "mixed", Steps: 80, Oracle: 6, Settle: 8, Admin: 2, Malformed: 1, ParamGrid: true, Powers: true, Rewards: true, MultiTenant: true, BigPeriods: true},
 }
 
@@ -153,7 +155,11 @@ func (g *G) setup() {
 	for _, c := range contracts[:2] {
 		for _, t := range tokens[:3] {
 			if r.P(3, 4) {
-				g.emit("setowner %s %s %s", e(c), e(t), rng.Pick(r, accs))
+				if g.p.Isolate {
+					g.emit("setowner %s %s %s", e(c), e(t), rng.Pick(r, accs[5:]))
+				} else {
+					g.emit("setowner %s %s %s", e(c), e(t), rng.Pick(r, accs))
+				}
 			}
 		}
 	}
@@ -169,6 +175,9 @@ func (g *G) setup() {
 	nt := 1
 	if g.p.MultiTenant {
 		nt = 1 + r.N(3)
+	}
+	if g.p.Isolate {
+		nt = 2 + r.N(2)
 	}
 	for i := 0; i < nt; i++ {
 		g.createTenant()
@@ -200,6 +209,9 @@ func (g *G) randPowers() {
 func (g *G) createTenant() {
 	r := g.r
 	admin := rng.Pick(r, accs[:5])
+	if g.p.Isolate {
+		admin = accs[(len(g.tenants)+1)%5]
+	}
 	denom := "uusdc"
 	if r.P(1, 6) {
 		denom = "uerc"
@@ -218,7 +230,11 @@ func (g *G) createTenant() {
 	}
 	g.tenants = append(g.tenants, t)
 	if t.method == "native" {
-		g.emit("deposit %s %d %d %s", admin, t.id, 200+r.N(2000), e(denom))
+		amt := 200 + r.N(2000)
+		if g.p.Isolate && r.P(1, 3) {
+			amt = 1 + r.N(30) // a tenant that runs out of funds
+		}
+		g.emit("deposit %s %d %d %s", admin, t.id, amt, e(denom))
 	}
 }
 
@@ -278,15 +294,20 @@ func (g *G) sender(t *tenant) string {
 func (g *G) settleOp() {
 	r := g.r
 	t := g.pickTenant()
-	switch r.N(10) {
+	switch r.N(11) {
+	case 10:
+		g.inject(t)
 	case 0:
-		if len(g.tenants) < 4 && g.p.MultiTenant {
+		if len(g.tenants) < 4 && g.p.MultiTenant && !g.p.Isolate {
 			g.createTenant()
 			return
 		}
 		fallthrough
 	case 1:
 		who := rng.Pick(r, accs[:6])
+		if g.p.Isolate {
+			who = t.admins[0]
+		}
 		amt := rng.Pick(r, []int{1, 10, 100, 1000, 5000})
 		tid := t.id
 		if r.P(1, 10) {
@@ -313,6 +334,46 @@ func (g *G) settleOp() {
 	case 9:
 		g.block()
 	}
+}
+
+// inject stores a record directly, as a genesis import does: this is how records with several weighted recipients arise.
+func (g *G) inject(t *tenant) {
+	r := g.r
+	req := fmt.Sprintf("j%d", t.nreq)
+	t.nreq++
+	amt := rng.Pick(r, []int{1, 2, 3, 7, 10, 11, 50, 99, 100, 401, 3001})
+	n := 1 + r.N(3)
+	var rs []string
+	for i := 0; i < n; i++ {
+		var a string
+		switch {
+		case g.p.Isolate:
+			a = rng.Pick(r, accs[5:])
+		case r.P(1, 6):
+			a = rng.Pick(r, []string{ownerStrs[0], ownerStrs[1], ownerStrs[2], "0x0000000000000000000000000000000000000000"})
+		default:
+			a = rng.Pick(r, accs)
+		}
+		w := rng.Pick(r, []int{1, 1, 2, 3, 0, 5, 7})
+		if r.P(1, 40) {
+			w = 4294967295
+		}
+		rs = append(rs, fmt.Sprintf("%s*%d", a, w))
+	}
+	rc := strings.Join(rs, "+")
+	if r.P(1, 10) {
+		rc = "-"
+	}
+	created := g.height
+	if r.P(1, 4) && g.height > 1 {
+		created = g.height - int64(r.N(int(g.height)))
+	}
+	contract := rng.Pick(r, contracts[:2])
+	if g.p.Isolate {
+		contract = contracts[(t.id-1)%2]
+	}
+	g.emit("inject %d %s %d %s %s %s %s %d %s", t.id, e(req), amt, e(t.denom), e(rng.Pick(r, []string{"1", world.ThisChain})), e(contract), e(rng.Pick(r, tokens)), created, rc)
+	t.pending = append(t.pending, req)
 }
 
 func (g *G) record(t *tenant) {
@@ -351,6 +412,13 @@ func (g *G) record(t *tenant) {
 	tid := t.id
 	if r.P(1, 15) {
 		tid = 9
+	}
+	if g.p.Isolate {
+		// tenants reference different NFTs: the token id carries the tenant
+		token = tokens[(t.id-1)%len(tokens)]
+		if chain != world.ThisChain && len(g.ext) > 0 {
+			g.ext[len(g.ext)-1].token = token
+		}
 	}
 	g.emit("record %s %d %s %d %s %s %s %s", g.sender(t), tid, e(req), amt, e(denom), e(chain), e(contract), e(token))
 	t.pending = append(t.pending, req)
